@@ -1578,7 +1578,7 @@ func (fx *FnExec) convert(fr *frame, st *State, x *ssa.Convert) Val {
 				arr := c.Fresh("conv.bytes", byteArr)
 				fx.setElemArray(st, sl.Elem(), r, arr)
 				fx.assumeCopy(arr, fx.bv64(0), s.Arr, s.Off, s.Len)
-				fx.assumeGlobal(c.Eq(fx.rngTerm(arr, fx.bv64(0), s.Len), fx.rngTerm(s.Arr, s.Off, s.Len)))
+				fx.assumeGlobal(c.Eq(fx.rngTermRef(arr, fx.bv64(0), s.Len, r), fx.rngTerm(s.Arr, s.Off, s.Len)))
 				return res
 			}
 			fx.drop("string to []rune conversion (contents unconstrained)")
